@@ -132,7 +132,7 @@ def audit(prop):
         rc, out = run(["lake", "env", "lean", path], cwd=LEAN, timeout=1200)
     detail = {}
     # output format: "'Name' depends on axioms: [a, b]" or "'Name' does not depend on any axioms"
-    for m in re.finditer(r"'([^']+)' (does not depend on any axioms|depends on axioms: \[([^\]]*)\])", out, flags=re.S):
+    for m in re.finditer(r"'(\S+?)' (does not depend on any axioms|depends on axioms: \[([^\]]*)\])", out, flags=re.S):
         name = m.group(1)
         axs = [a.strip() for a in (m.group(3) or "").replace("\n", " ").split(",") if a.strip()]
         detail[name] = axs
